@@ -6,6 +6,7 @@ use crate::program::*;
 use crate::rng::Rng;
 
 pub const MS: u64 = 1_000_000;
+pub const NK: usize = 9;
 
 #[derive(Clone, Copy, Debug, PartialEq, Eq)]
 pub enum KindTag {
@@ -23,8 +24,9 @@ pub enum KindTag {
 #[derive(Clone, Debug)]
 pub struct Profile {
     pub name: &'static str,
-    /// weights of source kinds: ping, channel, timer, generic
-    pub kinds: [u32; 4],
+    /// weights of source kinds: ping, channel, timer, generic, lifecycle, executor, stream,
+    /// composite, transient
+    pub kinds: [u32; NK],
     pub w_insert: u32,
     pub w_token: u32,
     pub w_cause: u32,
@@ -51,7 +53,7 @@ pub struct Profile {
 pub fn profile(name: &str) -> Profile {
     let base = Profile {
         name: "core",
-        kinds: [3, 3, 3, 3],
+        kinds: [3, 3, 3, 3, 1, 0, 0, 0, 0],
         w_insert: 5,
         w_token: 6,
         w_cause: 8,
@@ -74,36 +76,37 @@ pub fn profile(name: &str) -> Profile {
         err_returns: false,
     };
     match name {
-        "C01" => Profile { name: "C01", w_token: 8, reuse_bias: 4, kinds: [4, 3, 3, 4], err_returns: true, ..base },
-        "C02" => Profile { name: "C02", w_cause: 12, max_sources: 8, kinds: [3, 3, 2, 6], ..base },
-        "C03" => Profile { name: "C03", kinds: [10, 0, 1, 1], w_cause: 12, ..base },
-        "C04" => Profile { name: "C04", kinds: [1, 10, 1, 0], w_cause: 14, ..base },
-        "C05" => Profile { name: "C05", kinds: [2, 1, 10, 1], w_advance: 6, err_returns: true, ..base },
+        "C01" => Profile { name: "C01", w_token: 8, reuse_bias: 4, kinds: [4, 3, 3, 4, 0, 0, 0, 0, 0], err_returns: true, ..base },
+        "C02" => Profile { name: "C02", w_cause: 12, max_sources: 8, kinds: [3, 3, 2, 6, 0, 0, 0, 0, 0], ..base },
+        "C03" => Profile { name: "C03", kinds: [10, 0, 1, 1, 0, 0, 0, 0, 0], w_cause: 12, ..base },
+        "C04" => Profile { name: "C04", kinds: [1, 10, 1, 0, 0, 0, 0, 0, 0], w_cause: 14, ..base },
+        "C05" => Profile { name: "C05", kinds: [2, 1, 10, 1, 0, 0, 0, 0, 0], w_advance: 6, err_returns: true, ..base },
         "C06" => Profile { name: "C06", w_token: 9, w_insert: 7, reuse_bias: 3, ..base },
         "C07" => Profile { name: "C07", w_token: 10, err_returns: true, ..base },
         "C08" => Profile { name: "C08", script_len: (1, 5), script_ops: (1, 6), w_idle: 4, ..base },
-        "C09" => Profile { name: "C09", kinds: [2, 1, 2, 8], err_returns: true, script_len: (1, 5), ..base },
-        "C12" => Profile { name: "C12", kinds: [2, 1, 8, 1], w_dispatch: 10, w_advance: 5, w_cause: 3, ..base },
+        "C09" => Profile { name: "C09", kinds: [2, 1, 2, 8, 0, 0, 0, 0, 0], err_returns: true, script_len: (1, 5), ..base },
+        "C12" => Profile { name: "C12", kinds: [2, 1, 8, 1, 0, 0, 0, 0, 0], w_dispatch: 10, w_advance: 5, w_cause: 3, ..base },
         "C13" => Profile { name: "C13", w_idle: 10, err_returns: true, ..base },
-        "C15" => Profile { name: "C15", faults: false, scripted_faults: true, natural_faults: true, err_returns: true, kinds: [3, 2, 3, 6], ..base },
-        "C16" => Profile { name: "C16", kinds: [2, 2, 0, 10], table_every: 1, w_token: 8, err_returns: true, ..base },
+        "C15" => Profile { name: "C15", faults: false, scripted_faults: true, natural_faults: true, err_returns: true, kinds: [3, 2, 3, 6, 0, 0, 0, 0, 0], ..base },
+        "C14" => Profile { name: "C14", kinds: [2, 1, 2, 2, 8, 0, 0, 0, 0], w_token: 9, scripted_faults: true, err_returns: true, ..base },
+        "C16" => Profile { name: "C16", kinds: [2, 2, 0, 10, 0, 0, 0, 0, 0], table_every: 1, w_token: 8, err_returns: true, ..base },
         _ => base,
     }
 }
 
-struct G {
-    rng: Rng,
-    p: Profile,
-    next_id: Id,
-    srcs: Vec<(Id, KindTag, bool /*keep*/)>,
-    idles: Vec<Id>,
+pub struct G {
+    pub rng: Rng,
+    pub p: Profile,
+    pub next_id: Id,
+    pub srcs: Vec<(Id, KindTag, bool /*keep*/)>,
+    pub idles: Vec<Id>,
     /// per-run swarm switches
     sw: Swarm,
 }
 
 #[derive(Clone, Debug)]
 struct Swarm {
-    kinds: [bool; 4],
+    kinds: [bool; NK],
     token_ops: [bool; 4], // remove disable enable update
     in_cb_ops: bool,
     nested_insert: bool,
@@ -115,8 +118,8 @@ struct Swarm {
 }
 
 fn gen_swarm(rng: &mut Rng, p: &Profile) -> Swarm {
-    let mut kinds = [false; 4];
-    for i in 0..4 {
+    let mut kinds = [false; NK];
+    for i in 0..NK {
         kinds[i] = p.kinds[i] > 0 && rng.chance(3, 4);
     }
     if !kinds.iter().any(|x| *x) {
@@ -306,6 +309,7 @@ impl G {
                 1 if self.sw.clones => Op::DropPing(id),
                 _ => Op::Ping(id),
             },
+            KindTag::Lifecycle => Op::Ping(id),
             KindTag::Channel => match self.rng.below(10) {
                 0 if self.sw.clones => Op::CloneSender(id),
                 1 if self.sw.clones => Op::DropSender(id),
@@ -327,14 +331,14 @@ impl G {
                 10 if keep && self.p.modes => Op::GenericSet(id, self.rng.below(4) as u8, self.rng.below(3) as u8),
                 _ => Op::PeerWrite(id, 1),
             },
-            _ => return None,
+            _ => return crate::gen2::cause_op2(self, id, k),
         })
     }
 
     fn insert_op(&mut self, depth: u32) -> Op {
         let id = self.fresh();
         let mut w = self.p.kinds;
-        for i in 0..4 {
+        for i in 0..NK {
             if !self.sw.kinds[i] {
                 w[i] = 0;
             }
@@ -343,7 +347,12 @@ impl G {
             0 => KindTag::Ping,
             1 => KindTag::Channel,
             2 => KindTag::Timer,
-            _ => KindTag::Generic,
+            3 => KindTag::Generic,
+            4 => KindTag::Lifecycle,
+            5 => KindTag::Executor,
+            6 => KindTag::Stream,
+            7 => KindTag::Composite,
+            _ => KindTag::Transient,
         };
         let keep = matches!(k, KindTag::Timer | KindTag::Generic) && self.rng.chance(1, 2);
         // register before generating the script so the script can refer to itself and others
@@ -362,7 +371,12 @@ impl G {
                 Op::InsertChannel { id, bound, script }
             }
             KindTag::Timer => Op::InsertTimer { id, dl: self.deadline(), keep, script },
-            _ => {
+            KindTag::Lifecycle => {
+                let n = self.rng.below(6);
+                let synth: Vec<bool> = (0..n).map(|_| self.rng.chance(1, 3)).collect();
+                Op::InsertLifecycle { id, with_ping: self.rng.chance(2, 3), with_timer: None, synth, script }
+            }
+            KindTag::Generic => {
                 let mut fd = match self.rng.below(6) {
                     0 => FdSpec::PipeR,
                     1 => FdSpec::PipeW,
@@ -399,6 +413,7 @@ impl G {
                 };
                 Op::InsertGeneric { id, fd, interest, mode, keep, script }
             }
+            _ => crate::gen2::insert_op2(self, id, k, script),
         }
     }
 
